@@ -15,6 +15,9 @@ From Coq Require Import List NArith ZArith.
 From Coq.Strings Require Import Byte.
 From SP Require Import Bytes Params Crypto Errors BaseX Encodings Chunker Armor Streams Rand Sign Encrypt Signcrypt
      ChunkerProofs SignProofs EncryptProofs SigncryptProofs StreamProofs BxStream BxStreamProofs.
+From SP Require Import GoLang GoLang2 GoAst GoAstStreams GoAstProofs GoAstProofs2 GoAstProofs3 GoAstProofs4c.
+From Coq Require String.
+Import String.StringSyntax.
 Import ListNotations.
 
 (* ---------------- write side ---------------- *)
@@ -183,3 +186,46 @@ Print Assumptions C13_bx_stream_clean_end.
 Print Assumptions C13_bx_stream_complete.
 Print Assumptions C13_bx_stream_source_error.
 Print Assumptions C13_bx_stream_shipped.
+
+(* ---------------- SOURCE TIE of the two reader adaptors ---------------- *)
+(* The terms f_saltpack_chunkReader_Read and f_saltpack_punctuatedReader_Read are generated on every run from
+   the Go syntax trees of /repo (gen/GoAstStreams.v).  Under the Go semantics of model/GoLang2.v they compute
+   one step of the very state machines (cr_read, pr_read) the theorems above are about, for EVERY reader
+   state, caller buffer and chunk source / underlying source: the returned count and error, and the state
+   left in the receiver.  (chunkReader: the bytes copied into the caller's buffer through the slice
+   expression p[n:] are not observable in this semantics; they are tied by the call-by-call correspondence.
+   The hypotheses of the first theorem bound the evaluator's fuel only.) *)
+Theorem C13_source_chunkReader_Read (F : nat) (st : cr_state) (p : bytes) :
+  (10 <= F)%nat -> (List.length (cr_pending st) < F)%nat ->
+  let r := run_func2_at (S F) ext_cr f_saltpack_chunkReader_Read [g_cr st; VBytes p] in
+  match cr_read (S (S (List.length (cr_pending st)))) (List.length p) st [] with
+  | ((out, e), st') as m =>
+    if cr_go_panics m then r = (OPanic, [])
+    else fst r = ORet [VInt (Z.of_nat (List.length out)); g_err_opt e] /\
+         lookup "r" (snd r) = Some (g_cr st') /\
+         lookup "p" (snd r) = Some (VBytes p)
+  end.
+Proof. exact (go_chunkReader_Read F st p). Qed.
+
+Theorem C13_source_punctuatedReader_Read (z1 z2 : bool) (buf : bytes) (st : pr_state) (out : bytes) :
+  (pr_this st = [] -> pr_this_punct st = false) ->
+  let r := run_func2 ext_pr f_saltpack_punctuatedReader_Read [g_pr z1 z2 buf st; VBytes out] in
+  match pr_read (List.length out) st with
+  | (res, st') =>
+    fst r = ORet [VInt (Z.of_nat (List.length (pr_data res))); pr_res_err res] /\
+    (exists z1' z2', lookup "p" (snd r) = Some (g_pr z1' z2' buf st')) /\
+    (exists out', lookup "out" (snd r) = Some (VBytes out') /\
+                  List.length out' = List.length out /\ firstn (List.length (pr_data res)) out' = pr_data res)
+  end.
+Proof. exact (go_punctuatedReader_Read z1 z2 buf st out). Qed.
+
+(* the hypothesis of the second theorem is an invariant of the reader *)
+Theorem C13_source_punctuatedReader_invariant (s : source) (n : nat) (st : pr_state) :
+  (pr_this (pr_init s) = [] -> pr_this_punct (pr_init s) = false) /\
+  ((pr_this st = [] -> pr_this_punct st = false) ->
+   pr_this (snd (pr_read n st)) = [] -> pr_this_punct (snd (pr_read n st)) = false).
+Proof. split; [exact (pr_punct_wf_init s)|exact (pr_punct_wf_read n st)]. Qed.
+
+Print Assumptions C13_source_chunkReader_Read.
+Print Assumptions C13_source_punctuatedReader_Read.
+Print Assumptions C13_source_punctuatedReader_invariant.
